@@ -36,6 +36,10 @@ def gen_case(seed, i, nperm):
         # file names that are not C++ identifiers (the struct name derived from them is C06's business, not C08's)
         odd = rng.choice(['my-toaster', 'Toaster.v2', '3d printer', 'naïve_model', 'a+b', 'x' * 40])
         cfg['dezyne_filename'] = rng.choice(['', 'models/', '/abs/dir.with.dots/']) + odd + rng.choice(['.dzn', '.json', ''])
+    if rng.chance(20):
+        # texts that are not in Unicode normal form C (decomposed accents, compatibility singletons): the content hash is the
+        # MD5 of the UTF-8 bytes of the contents as they are, not of some normalisation of them
+        cfg['copyright'] = rng.choice(['Copyright Cafe\u0301 Ame\u0301lie \u212B 2024', 'nai\u0308ve \u2126 \ufb01rm', 'A\u030a\u0301 / \u1e9b\u0323'])
     kind = 'valid'
     if rng.chance(15):
         # failing configuration: explicit sets naming ports the component does not have (error text must be stable too)
